@@ -38,6 +38,10 @@ type wsConnection struct {
 	subs   map[string]common.Handler
 
 	closed atomic.Bool
+	// draining is set, under subsMu, at the moment the connection is found empty and
+	// is about to be closed; subscribe refuses new subscriptions from then on, so a
+	// subscriber can never be registered on a connection that is being closed as unused.
+	draining atomic.Bool
 
 	onEmpty     func()
 	idleTimeout time.Duration
@@ -81,7 +85,7 @@ func newWSConnection(conn *websocket.Conn, proto protocol.Protocol, opts wsConne
 func (c *wsConnection) subscribe(ctx context.Context, id string, req *common.Request, handler common.Handler) (func(), error) {
 	c.subsMu.Lock()
 
-	if c.closed.Load() {
+	if c.closed.Load() || c.draining.Load() {
 		c.subsMu.Unlock()
 		return nil, common.ErrConnectionClosed
 	}
@@ -131,14 +135,20 @@ func (c *wsConnection) removeSub(id string) {
 	c.subsMu.Lock()
 	delete(c.subs, id)
 	isEmpty := len(c.subs) == 0
+	if isEmpty && c.idleTimeout <= 0 {
+		c.draining.Store(true)
+	}
 	c.subsMu.Unlock()
 
 	if isEmpty {
 		if c.idleTimeout > 0 {
 			time.AfterFunc(c.idleTimeout, func() {
-				c.subsMu.RLock()
+				c.subsMu.Lock()
 				stillEmpty := len(c.subs) == 0
-				c.subsMu.RUnlock()
+				if stillEmpty {
+					c.draining.Store(true)
+				}
+				c.subsMu.Unlock()
 				if stillEmpty {
 					c.closeConn()
 				}
@@ -291,5 +301,5 @@ func (c *wsConnection) pongOverdue(timeout time.Duration) bool {
 }
 
 func (c *wsConnection) isClosed() bool {
-	return c.closed.Load()
+	return c.closed.Load() || c.draining.Load()
 }
